@@ -181,9 +181,14 @@ impl Shared {
             return;
         }
         let id = std::thread::current().id();
-        self.watch.lock().unwrap().insert(id, (Instant::now(), v()));
+        let val = v();
+        // crash recorder: the replay text of the running case, for the signal handler
+        let replay = json!({"property": self.id, "stream": val["stream"], "case": val["case"], "note": "case that was executing when the process died"});
+        crate::crash::publish(&replay.to_string());
+        self.watch.lock().unwrap().insert(id, (Instant::now(), val));
     }
     pub fn unwatch(&self) {
+        crate::crash::clear();
         let id = std::thread::current().id();
         self.watch.lock().unwrap().remove(&id);
     }
